@@ -187,6 +187,7 @@ CHECKS = {
         "runs": (lambda pid: lambda tier: (lambda n: [
             {"args": ["sched", "-n", str(n), "-len", "25", "-slots", "0"] + (["-faults", "1"] if pid == "C20" else [])},
             {"args": ["sched", "-n", str(n), "-len", "25", "-slots", "0", "-faults", "2" if pid == "C20" else "1"], "seed_off": 50},
+            {"args": ["sched", "-n", str(n), "-len", "20", "-slots", "0", "-ties"] + (["-faults", "1"] if pid == "C20" else []), "seed_off": 70},
         ])({"quick": 500, "thorough": 20000, "widen": 3000}[tier]))(pid),
         "rule": "the real Scheduler over the real observable repository (in-memory + hook timer, virtual clock), a "
                 "call-logging proxy and a simulated dispatcher with 1..3 slots: random scripts of user mutations, "
@@ -209,6 +210,33 @@ CHECKS = {
         ("C06", "hook-timer configuration; delivery through eventqueue's goroutines is sampled."),
         ("C20", "PARTIAL: inherits C03's open finding D3i; faults on every scheduler call incl. hook re-arming."),
     )},
+    "C10": {
+        "family": "lin", "level": "proof", "modules": ["Gk.Props.C10"], "components": ["lin"],
+        "runs": lambda tier: {
+            "quick": [{"args": ["lin", "-impl", "mem", "-n", "3000", "-g", "4", "-k", "2"]},
+                      {"args": ["lin", "-impl", "mem", "-n", "1500", "-g", "3", "-k", "3"], "seed_off": 1},
+                      {"args": ["lin", "-impl", "entfile", "-n", "150", "-g", "3", "-k", "2"]},
+                      {"args": ["lin", "-impl", "mem", "-n", "600", "-g", "4", "-k", "2"], "race": True, "seed_off": 2}],
+            "thorough": [{"args": ["lin", "-impl", "mem", "-n", "60000", "-g", "4", "-k", "2", "-procs", str(p)], "seed_off": p}
+                         for p in (2, 4, 16)] +
+                        [{"args": ["lin", "-impl", "mem", "-n", "20000", "-g", "2", "-k", "4"]},
+                         {"args": ["lin", "-impl", "entfile", "-n", "3000", "-g", "4", "-k", "2"]},
+                         {"args": ["lin", "-impl", "mem", "-n", "6000", "-g", "4", "-k", "2"], "race": True, "seed_off": 9},
+                         {"args": ["lin", "-impl", "entfile", "-n", "300", "-g", "3", "-k", "2"], "race": True, "seed_off": 10}],
+            "widen": [{"args": ["lin", "-impl", "mem", "-n", "30000", "-g", "4", "-k", "2"]}],
+        }[tier],
+        "rule": "real goroutines behind a barrier issue add / cancel / dispatch / update / done / get / next / find on "
+                "two shared tasks (all sort keys tied, fixed clock) of the in-memory and the file-backed ent/SQLite "
+                "repository; calls and returns are stamped with one atomic counter; a sequential suffix lists and "
+                "drains the repository; the recorded history is decided by the Lean checker Gk.Lin.linearizable over "
+                "Spec.Repo; one run uses a race-detector build (a reported data race is a violation by itself)",
+        "trusted_base": COMMON_TB + ["that the Go code holds r.mu where the model assumes one atomic step, and that SQLite "
+                                     "executes each conditional UPDATE atomically, is sampled by these runs, not proved"],
+        "assumptions": ["histories are observations of real concurrent runs (not shrunk, a replay re-checks the recorded "
+                        "observation)", "for the SQL repository members of a full tie may be returned in any order"],
+        "claim": "PARTIAL: the theorems are about the checker (sound and complete w.r.t. the definition) and the atomic-"
+                 "section argument; the mapping of Go critical sections / SQL statements to atomic steps is sampled.",
+    },
     "C14": {
         "family": "repo", "level": "proof", "modules": ["Gk.Props.C14"],
         "components": ["repo", "heap", "snapshot", "memspec", "next", "find"],
